@@ -141,7 +141,7 @@ def worker_build(tier, outdir, do_pickle, only=None):
             pid = f"{si}:" + ">".join(st[0] for st in steps)
             case = {"source": s, "steps": steps}
             try:
-                dpool, npool = E.build_program(case)
+                dpool, npool = E.build_program(case, strict=True)
             except Exception:
                 continue
             y = dpool[-1]
